@@ -5,6 +5,7 @@ import (
 	"encoding/json"
 	"flag"
 	"fmt"
+	"runtime"
 	"sync"
 	"sync/atomic"
 	"testing"
@@ -48,7 +49,7 @@ type largeStruct struct {
 	B string
 }
 
-var largePtrs [1000]int
+var largePtrs [20000]int
 
 // largeItem maps the item number to the value that is inserted. The mapping is injective.
 func largeItem(sc *LargeScenario, x int) interface{} {
@@ -73,15 +74,19 @@ func largeItem(sc *LargeScenario, x int) interface{} {
 }
 
 func genLarge(t *rapid.T) *LargeScenario {
-	sc := &LargeScenario{Universe: rapid.SampledFrom([]int{40, 100, 300, 1000}).Draw(t, "universe")}
+	sc := &LargeScenario{Universe: rapid.SampledFrom([]int{40, 100, 300, 1000, 20000}).Draw(t, "universe")}
 	ph := func(t *rapid.T) LPhase {
 		p := LPhase{
 			Base:   rapid.IntRange(0, 999).Draw(t, "base"),
-			N:      rapid.SampledFrom([]int{1, 2, 3, 5, 8, 13, 16, 17, 20, 31, 32, 33, 40, 63, 64, 65, 100, 130}).Draw(t, "n"),
+			N:      rapid.SampledFrom([]int{1, 2, 3, 5, 8, 13, 16, 17, 20, 31, 32, 33, 40, 63, 64, 65, 100, 130, 130, 1000, 4096, 4100, 9000}).Draw(t, "n"),
 			Stride: rapid.SampledFrom([]int{1, 1, 1, 3, 7}).Draw(t, "stride"),
 			Dup:    rapid.SampledFrom([]int{0, 0, 1, 2, 5}).Draw(t, "dup"),
 		}
 		p.Next = rapid.SampledFrom([]int{0, 1, 2, 5, 10, 15, 16, 17, 30, 33, 64, 200}).Draw(t, "next")
+		if p.N >= 1000 {
+			// work a big backlog down to some fraction of its peak (thresholds such as a half, a quarter)
+			p.Next = p.N * rapid.SampledFrom([]int{1, 2, 3, 5, 6, 7}).Draw(t, "next-eighths") / 8
+		}
 		if rapid.IntRange(0, 11).Draw(t, "hot") == 0 {
 			p.Hot = rapid.SampledFrom([]int{254, 255, 256, 257, 65534, 65535, 65536, 65537, 70000}).Draw(t, "hot-n")
 		}
@@ -222,7 +227,7 @@ func TestC11Large(t *testing.T) {
 		sc := genLarge(rt)
 		st, err := runLarge(sc)
 		var labels []string
-		for _, b := range []int{4, 17, 33, 65, 129} {
+		for _, b := range []int{4, 17, 33, 65, 129, 1025, 4097} {
 			if st.maxPending >= b {
 				labels = append(labels, fmt.Sprintf("backlog>=%d", b))
 			}
@@ -367,6 +372,83 @@ func runStressOnce(sp *StressSpec) *verr {
 	return nil
 }
 
+// runCloseUnderFire: Close arrives while producers are still inserting and another goroutine keeps
+// reading Len(); every insertion that had RETURNED (nil error) before Close was CALLED must be delivered
+// before the consumer is told "closed" (insertions racing the Close itself are not judged).
+func runCloseUnderFire(sp *StressSpec) *verr {
+	q := coalesce.NewQueue()
+	ctx, cancel := context.WithCancel(context.Background())
+	defer cancel()
+	var seq atomic.Int64
+	type ins struct {
+		item  int
+		stamp int64
+	}
+	delivered := map[int]bool{}
+	consumerDone := make(chan error, 1)
+	go func() {
+		for {
+			it, _, err := q.Next(ctx)
+			if err != nil {
+				consumerDone <- err
+				return
+			}
+			if x, ok := it.(int); ok {
+				delivered[x] = true
+			}
+		}
+	}()
+	var wg sync.WaitGroup
+	recs := make([][]ins, sp.Producers)
+	for p := 0; p < sp.Producers; p++ {
+		wg.Add(1)
+		go func(p int) {
+			defer wg.Done()
+			for k := 0; k < sp.PerProd; k++ {
+				item := p*1_000_000 + k
+				if _, err := q.Insert(item); err != nil {
+					return
+				}
+				recs[p] = append(recs[p], ins{item, seq.Add(1)})
+				runtime.Gosched()
+			}
+		}(p)
+	}
+	var stop atomic.Bool
+	wg.Add(1)
+	go func() {
+		defer wg.Done()
+		for !stop.Load() {
+			q.Len()
+			q.IsClosed()
+		}
+	}()
+	for i := 0; i < 1+sp.Items*7; i++ {
+		runtime.Gosched()
+	}
+	closeAt := seq.Add(1)
+	q.Close()
+	stop.Store(true)
+	wg.Wait()
+	synctest.Wait()
+	select {
+	case err := <-consumerDone:
+		if !coalesce.IsClosedQueue(err) {
+			return newVerr("next-error", "consumer stopped with %v", err)
+		}
+	default:
+		return newVerr("stuck-consumer", "consumer still blocked in Next after Close")
+	}
+	for p := range recs {
+		for _, r := range recs[p] {
+			if r.stamp < closeAt && !delivered[r.item] {
+				return newVerr("lost-at-close", "Insert(%d) had returned (nil error) before Close was called, but the consumer was told the queue is closed without that item having been delivered (%d producers, a Len() reader running)", r.item, sp.Producers)
+			}
+		}
+	}
+	return nil
+}
+
 func runStress(t *testing.T, sp *StressSpec) (err error) {
 	defer func() {
 		if r := recover(); r != nil {
@@ -375,7 +457,11 @@ func runStress(t *testing.T, sp *StressSpec) (err error) {
 	}()
 	synctest.Test(t, func(*testing.T) {
 		for r := 0; r < sp.Rounds; r++ {
-			if v := runStressOnce(sp); v != nil {
+			v := runStressOnce(sp)
+			if v == nil && r%2 == 1 {
+				v = runCloseUnderFire(sp)
+			}
+			if v != nil {
 				err = fmt.Errorf("round %d: %w", r, v)
 				return
 			}
